@@ -258,7 +258,12 @@ fn mmap_log<const N: usize, const M: usize>(case: &Case) -> Vec<i64> {
     let name = format!("rm_harness_multi_{}_{}", std::process::id(), SEQ.fetch_add(1, SeqCst));
     let chan = reactive_mutiny::multi::channels::reference::mmap_log::MmapLog::<u32, M>::new(name.clone());
     let _ = std::fs::remove_file(format!("/tmp/{}.mmap", name));
-    run_generic(case, chan, LocMap::new(), M)
+    // every MmapLog maps 2^38 slots (1 TiB of address space for u32 events) and a case that leaves a thread or a stream behind never
+    // unmaps it: after a few dozen such cases a process runs out of address space and `MmapLog::new` panics on its `unwrap()`.
+    // That is the harness's resource, not the channel's behaviour: ask for a fresh process every 32 log-channel cases.
+    let out = run_generic(case, chan, LocMap::new(), M);
+    if SEQ.load(SeqCst) % 32 == 0 { LEAKED.store(true, SeqCst); }
+    out
 }
 
 pub fn run(case: &Case) -> Vec<i64> {
